@@ -7,8 +7,11 @@
 //   one <cmp> <rank> <seq>|<seq>|...          a single rank
 //   all <cmp> <seq>|<seq>|...                 every rank 0..N
 //   rot <cmp> <seq>|<seq>|...                 every rank 0..N, one variant per rank (rotating, as for `exh`)
-//   exh <cmp> <m> <minlen> <maxlen> <keys>    every tuple of exactly m sorted sequences with lengths in
-//                                             [minlen,maxlen] over keys 0..keys-1, every rank (one line per tuple)
+//   exh <cmp> <m> <minlen> <maxlen> <keys> [<part> <nparts>]
+//                                             every tuple of exactly m sorted sequences with lengths in
+//                                             [minlen,maxlen] over keys 0..keys-1, every rank (one line per tuple);
+//                                             with <part> <nparts> only the tuples whose first sequence has index
+//                                             = part (mod nparts) in the enumeration (to split a family over shards)
 //   pad <x>                                   the padded length  round_up_to_power_of_two(x + 1) - 1  through every
 //                                             overload (int, unsigned, long, unsigned long, long long, unsigned long
 //                                             long) in whose range x + 1 and the result lie; x up to 2^62
@@ -576,7 +579,7 @@ static void gen_sorted(int len, int keys, int from, Seq& cur, std::vector<Seq>& 
     for (int k = from; k < keys; ++k) { cur.push_back(k); gen_sorted(len, keys, k, cur, out); cur.pop_back(); }
 }
 
-static void run_exh(const std::string& c, int m, int minlen, int maxlen, int keys) {
+static void run_exh(const std::string& c, int m, int minlen, int maxlen, int keys, int part, int nparts) {
     std::vector<Seq> pool;
     for (int len = minlen; len <= maxlen; ++len) { Seq cur; gen_sorted(len, keys, 0, cur, pool); }
     if (c == "G") for (auto& s : pool) std::reverse(s.begin(), s.end());
@@ -585,7 +588,7 @@ static void run_exh(const std::string& c, int m, int minlen, int maxlen, int key
     for (;;) {
         std::vector<Seq> seqs;
         for (int i = 0; i < m; ++i) seqs.push_back(pool[idx[i]]);
-        dispatch(c, seqs, -1, false);
+        if (static_cast<int>(idx[0] % static_cast<size_t>(nparts)) == part) dispatch(c, seqs, -1, false);
         int k = m - 1;
         while (k >= 0 && ++idx[k] == pool.size()) { idx[k] = 0; --k; }
         if (k < 0) break;
@@ -723,8 +726,9 @@ int main(int argc, char** argv) {
             std::vector<Seq> seqs = parse_seqs(s);
             dispatch(c, seqs, -1, false);
         } else if (kind == "exh") {
-            int m, lo, hi, keys; ls >> c >> m >> lo >> hi >> keys;
-            run_exh(c, m, lo, hi, keys);
+            int m, lo, hi, keys, part = 0, nparts = 1; ls >> c >> m >> lo >> hi >> keys;
+            if (!(ls >> part >> nparts)) { part = 0; nparts = 1; }
+            run_exh(c, m, lo, hi, keys, part, nparts);
         } else if (kind == "pad") {
             long long x; ls >> x;
             run_pad(x);
